@@ -2,6 +2,7 @@
 """tools/tryround.py <seed-root> [ID ...]: apply every <seed-root>/<ID>/out/change*/patch.diff to a scratch copy of /repo and run the check
 of property <ID>; one line per change (used while a round of independently written changes comes in, before they are confirmed and stored)"""
 import subprocess, os, sys, shutil, tempfile, re, concurrent.futures
+os.environ.setdefault("VERIF_CACHE", "/tmp/hannibal-vcache")  # memoize verifier runs by generated-file hash (corpus tools only)
 ROOT = os.path.dirname(os.path.dirname(os.path.abspath(__file__)))
 root = sys.argv[1]
 ids = sys.argv[2:] or sorted(d for d in os.listdir(root) if re.match(r"C\d\d$", d))
